@@ -81,6 +81,11 @@ def generate(rng):
     if tr == 'popen' and scn['mode'] == 'rnb' and scn['size'] < 1000:
         n = min(n, 20000)
     data = payload(rng, n)
+    if rng.random() < 0.15 and n <= 5000:
+        # unicode mode: multi-byte characters cut by reads must neither be lost nor be taken for the end of the stream
+        scn['enc'] = 'utf-8'
+        data = ''.join((c if rng.random() < 0.8 else rng.choice(u'\xe9€\U0001f600')) for c in data)
+        data = data.encode('utf-8').decode('latin-1')
     if tr == 'pty' and not scn.get('raw_out', True):
         data = data.replace(',', '\n') if rng.random() < 0.5 else data
     pieces = cut(rng, data, rng.choice([1, 2, 3, 8, 30]))
@@ -308,7 +313,7 @@ def run(scn):
         st = child.string_type
         got = st().join(reads) if reads else st()
         if isinstance(got, str):
-            got = got.encode('latin-1')
+            got = got.encode(scn.get('enc') or 'latin-1')
         want = _truth(r)
         det = {'transport': scn['transport'], 'mode': scn.get('mode'), 'T': scn.get('T'), 'size': scn.get('size'),
                'ended': ended, 'got_len': len(got), 'want_len': len(want), 'enum': scn.get('enum')}
